@@ -74,7 +74,7 @@ RULES = {
     "C01": _u(SCHED, LINKDATA, TIMEAD, ("R40c", link.r40c_shared_conduit), ("R06s", life.r06s_start_time), ("R14", connect.r14_doublepush), ("R16", data.r16_getinfo), ("R11i", connect.r11_initial_pull)),
     "C02": _u(SCHED, ("R30", link.r30_delay)),
     "C03": _u(("R05t", sched.r05t_terminate), LIFE, SCHED, CONNECT, ("R42a", misc.r42a_fresh_copy), ("R16", data.r16_getinfo), ("R30", link.r30_delay)),
-    "C04": _u(SCHED, CONNECT, ("R30", link.r30_delay), ("R16", data.r16_getinfo), ("R29i", integ.r29i_initial_value)),
+    "C04": _u(("R09p", sched.r09p_ring_pull), SCHED, CONNECT, ("R30", link.r30_delay), ("R16", data.r16_getinfo), ("R29i", integ.r29i_initial_value)),
     "C06": _u(("R29i", integ.r29i_initial_value), CONNECT, LIFE, ("R17p", link.r17_pushpath), ("R15", data.r15_fields), ("R16", data.r16_getinfo)),
     "C07": _u(META, ("R11", connect.r11_r12_connect), ("R11r", connect.r11r_rules), ("R13", connect.r13_nodata),
               ("R34", grid.r34_transdir), ("R15g", data.r15g_gridcompat), ("R36", data.r36_units), ("R35", regrid2.r35x)),
@@ -103,7 +103,7 @@ RULES = {
     "C18": _u(("R37", data.r37_masktable), ("R37e", data.r37e_masks_equal_layout), ("R37p", data.r37p_prepare_mask), ("R33c", data.r33c_compress), UNITS,
               ("R15", data.r15_fields), ("R15c", data.r15c_copy_with), ("R41", misc.r41_masktruth), ("R33", grid.r33_mirror), ("R34", grid.r34_transdir)),
     "C19": _u(VALID, ("R06", life.r06_life), ("R20", link.r20_target)),
-    "C20": _u(("R11s", connect.r11s_static_slots), STATIC, ("R38s", valid._slot_constructors), ("R14", connect.r14_doublepush), ("R03", sched.r03_r09_step), ("R09", sched.r09_structure), ("R02", sched.r02_sched_agree), ("R17p", link.r17_pushpath),
+    "C20": _u(("R09p", sched.r09p_ring_pull), ("R11s", connect.r11s_static_slots), STATIC, ("R38s", valid._slot_constructors), ("R14", connect.r14_doublepush), ("R03", sched.r03_r09_step), ("R09", sched.r09_structure), ("R02", sched.r02_sched_agree), ("R17p", link.r17_pushpath),
               ("R18", link.r18_pullpath)),
 }
 SCHED_PROPS = {"C01", "C02", "C04", "C13", "C20", "C03"}
